@@ -219,7 +219,7 @@ func main() {
 	sort.SliceStable(jobs, func(a, b int) bool { return len(jobs[a].Name) > len(jobs[b].Name) })
 	budget := 4 * time.Minute
 	if run.Thorough() {
-		budget = 25 * time.Minute
+		budget = 12 * time.Minute
 	}
 	sdrv.Main(run, jobs, sdrv.Options{
 		Budget: budget,
